@@ -170,16 +170,23 @@ def sintefModel (dmaxGas dpRoot : α) (Uc d0 q rho_p mu_p sigma rho _mu : α) (i
 
 def sintefQ (m : List α) (rho : α) : α := if 0 < Num.sum m then mass2vol m rho else 0
 
+/-- `n = q_gas / (q_gas + q_oil)` (computed before the branches, used by the two-phase branch only) -/
+def sintefN (qGas qOil : α) : α := qGas / (qGas + qOil)
+
 /-- exit velocity `Un` and mixture density `rho_m` -/
 def sintefUn (d0 qGas rhoGas qOil rhoOil : α) : α × α :=
-  let n := qGas / (qGas + qOil)
+  let n := sintefN qGas qOil
   if isZero qOil then (4 * qGas / (pi * Num.npow d0 2), rhoGas)
   else if isZero qGas then (4 * qOil / (pi * Num.npow d0 2), rhoOil)
   else (4 * qOil / (pi * Num.npow d0 2) / Num.rpow (1 - n) (1 / 2), rhoOil * (1 - n) + rhoGas * n)
 
+def sintefFr (d0 qGas rhoGas qOil rhoOil rho : α) : α :=
+  let u := sintefUn d0 qGas rhoGas qOil rhoOil
+  u.1 / Num.rpow (G * (rho - u.2) / rho * d0) (1 / 2)
+
 def sintefUc (d0 qGas rhoGas qOil rhoOil rho : α) : α :=
   let u := sintefUn d0 qGas rhoGas qOil rhoOil
-  let Fr := u.1 / Num.rpow (G * (rho - u.2) / rho * d0) (1 / 2)
+  let Fr := sintefFr d0 qGas rhoGas qOil rhoOil rho
   u.1 * (1 + 1 / Fr)
 
 /-- `sintef(d0, m_gas, rho_gas, m_oil, rho_oil, mu_p, sigma, rho, mu, fp_type, use_d95)` -/
@@ -190,14 +197,6 @@ def sintef (dmaxGas dpRoot : α) (d0 : α) (mGas : List α) (rhoGas : α) (mOil 
   let Uc := sintefUc d0 qGas rhoGas qOil rhoOil rho
   if fpType = 0 then sintefModel dmaxGas dpRoot Uc d0 qGas rhoGas mu_p sigma rho mu true useD95
   else sintefModel dmaxGas dpRoot Uc d0 qOil rhoOil mu_p sigma rho mu false useD95
-
-/-- the denominators evaluated by `sintef` (in evaluation order) when exactly one phase flows or both do -/
-def sintefDenoms (d0 qGas rhoGas qOil rhoOil rho : α) : List α :=
-  let n := qGas / (qGas + qOil)
-  let u := sintefUn d0 qGas rhoGas qOil rhoOil
-  let root := Num.rpow (G * (rho - u.2) / rho * d0) (1 / 2)
-  let common := [qGas + qOil, pi * Num.npow d0 2, rho, root, u.1 / root]
-  if isZero qOil || isZero qGas then common else common ++ [Num.rpow (1 - n) (1 / 2)]
 
 /-! ### psf.li_etal -/
 
@@ -226,9 +225,6 @@ def liEtalModel (dmaxGas : α) (Uc d0 q rho_p mu_p sigma rho _mu : α) (isGas : 
 /-- `Uc = 4. * (q_gas + q_oil) / (np.pi * d0**2)` — the same for both phases (since fix 9f1b754 the void fraction is no
     longer computed: q_gas/n = q_oil/(1-n) = q_gas + q_oil) -/
 def liEtalUc (d0 qGas qOil : α) (_fpType : Nat) : α := 4 * (qGas + qOil) / (pi * Num.npow d0 2)
-
-/-- the denominators evaluated by `li_etal` before it looks at the flow rate of the requested phase -/
-def liEtalDenoms (d0 _qGas _qOil : α) (_fpType : Nat) : List α := [pi * Num.npow d0 2]
 
 def liEtal (dmaxGas : α) (d0 : α) (mGas : List α) (rhoGas : α) (mOil : List α) (rhoOil mu_p sigma rho mu : α)
     (fpType : Nat) : α × Option α × α × α :=
@@ -272,30 +268,95 @@ def wangModel (dmaxGas : α) (A n Ug rho_g mu_g sigma_g Ul rho_l rho mu : α) : 
     (f.1, 0, rho_l * A * Ul, none, f.2)
 
 /-- exit velocity `U_E` with the choked-flow correction; `a` = speed of sound -/
+def wangKappa : α :=
+  let cp : α := 35.69
+  let cv := cp - 8.31451
+  cp / cv
+
 def wangUE (Ug a : α) : α :=
   if 10 * Ug < a then Ug
   else
-    let cp : α := 35.69
-    let cv := cp - 8.31451
-    let kappa := cp / cv
+    let kappa : α := wangKappa
     let Ma := Ug / a
     if Ma < Num.sqrt ((kappa + 1) / 2) then
       a * (-1 + Num.sqrt (1 + 2 * (kappa - 1) * Num.rpow Ma 2)) / ((kappa - 1) * Ma)
     else a * Num.sqrt (2 / (kappa + 1))
 
 /-- `wang_etal(d0, m_g, rho_g, mu_g, sigma_g, rho, mu, m_l, rho_l, P, T)`; rhoA, rhoB = methane density at (T,P), (T,1.01P) -/
+def wangQl (mL : List α) (rho_l : α) : α := if isZero (Num.sum mL) then 0 else mass2vol mL rho_l
+def wangA (d0 : α) : α := pi * Num.npow d0 2 / 4
+/-- speed of sound from the two methane densities -/
+def wangSound (rhoA rhoB P : α) : α := Num.sqrt ((P - 1.01 * P) / (rhoA - rhoB))
+
 def wang (dmaxGas rhoA rhoB : α) (d0 : α) (mG : List α) (rho_g mu_g sigma_g rho mu : α) (mL : List α) (rho_l P : α) :
     α × α × α × Option α × α :=
   let Qg := mass2vol mG rho_g
-  let Ql := if isZero (Num.sum mL) then 0 else mass2vol mL rho_l
+  let Ql := wangQl mL rho_l
   let n := Qg / (Qg + Ql)
-  let A := pi * Num.npow d0 2 / 4
+  let A := wangA d0
   let Ug := (Qg + Ql) / A
-  let a := Num.sqrt ((P - 1.01 * P) / (rhoA - rhoB))
+  let a := wangSound rhoA rhoB P
   let UE := wangUE Ug a
   let Ug' := if 0 < Qg then UE else 0
   let Ul := if 0 < Ql then UE else 0
   wangModel dmaxGas A n Ug' rho_g mu_g sigma_g Ul rho_l rho mu
+
+/-! ### values the code evaluates whose definedness does not reach a result by data flow
+    (operands of `if` tests; quantities computed eagerly and used on one branch only, or discarded).
+    Together with the results they are everything the drivers evaluate; the definedness theorems of Props/C16.lean are
+    about these lists and the results, evaluated at the definedness-tracking instance `Chk` (Lemmas/C16.lean). -/
+
+def rrFitAux (d50 : α) (dmax : Option α) (alpha : α) : List α :=
+  match dmax with
+  | none => []
+  | some _ => [rrD95 d50 (Num.log 0.5) alpha]           -- `d95`, operand of `if d95 > d_max`
+
+def lnFitAux (d50 : α) (dmax : Option α) (sigma : α) : List α :=
+  match dmax with
+  | none => []
+  | some _ => [lnD95 d50 sigma]
+
+def sintefModelAux (dmaxGas dpRoot : α) (Uc d0 q rho_p mu_p sigma rho : α) (isGas : Bool) : List α :=
+  if 0 < q then
+    -- `We` (operand of `We > 350`) and `Vi` (argument of the residual) are computed before the branch
+    [sintefWe Uc d0 rho_p sigma, sintefVi Uc mu_p sigma] ++
+      rrFitAux (sintefD50 dpRoot Uc d0 rho_p mu_p sigma rho) (some (if isGas then dmaxGas else deMaxOil rho_p sigma rho)) 1.8
+  else []
+
+def sintefAux (dmaxGas dpRoot : α) (d0 : α) (mGas : List α) (rhoGas : α) (mOil : List α) (rhoOil mu_p sigma rho : α)
+    (fpType : Nat) : List α :=
+  let qGas := sintefQ mGas rhoGas
+  let qOil := sintefQ mOil rhoOil
+  let Uc := sintefUc d0 qGas rhoGas qOil rhoOil rho
+  [sintefN qGas qOil, (sintefUn d0 qGas rhoGas qOil rhoOil).1, (sintefUn d0 qGas rhoGas qOil rhoOil).2,
+   sintefFr d0 qGas rhoGas qOil rhoOil rho, Uc] ++
+  (if fpType = 0 then sintefModelAux dmaxGas dpRoot Uc d0 qGas rhoGas mu_p sigma rho true
+   else sintefModelAux dmaxGas dpRoot Uc d0 qOil rhoOil mu_p sigma rho false)
+
+def liEtalAux (d0 : α) (mGas : List α) (rhoGas : α) (mOil : List α) (rhoOil sigma rho : α) (fpType : Nat) : List α :=
+  let qGas := mass2vol mGas rhoGas
+  let qOil := mass2vol mOil rhoOil
+  -- `Uc` is computed whether or not the requested phase flows; `de_max_oil(sigma, rho_p, rho)` is the operand of `de_max < d0`
+  [liEtalUc d0 qGas qOil fpType] ++
+  (if fpType = 0 then (if 0 < qGas then [deMaxOil sigma rhoGas rho] else [])
+   else (if 0 < qOil then [deMaxOil sigma rhoOil rho] else []))
+
+def wangUEAux (Ug a : α) : List α :=
+  if 10 * Ug < a then [] else [Ug / a, Num.sqrt ((wangKappa + 1) / 2)]
+
+def wangAux (dmaxGas rhoA rhoB : α) (d0 : α) (mG : List α) (rho_g mu_g sigma_g rho mu : α) (mL : List α) (rho_l P : α) :
+    List α :=
+  let Qg := mass2vol mG rho_g
+  let Ql := wangQl mL rho_l
+  let n := Qg / (Qg + Ql)
+  let A := wangA d0
+  let Ug := (Qg + Ql) / A
+  let a := wangSound rhoA rhoB P
+  let UE := wangUE Ug a
+  let Ug' := if 0 < Qg then UE else 0
+  let Ul := if 0 < Ql then UE else 0
+  [n, A, Ug, a, UE] ++ wangUEAux Ug a ++
+  (if 0 < Ug' then lnFitAux (wangD50 A n Ug' rho_g mu_g sigma_g Ul rho_l rho mu).1 (some dmaxGas) 0.27 else [])
 
 /-! ### particle_size_models.ModelBase -/
 
@@ -394,7 +455,8 @@ def dispatch : Dispatch := fun name args =>
       let q := if fp = 0 then qGas else qOil
       let rp := if fp = 0 then rhoGas else rhoOil
       let We := sintefWe (α := Float) Uc d0 rp sigma
-      some ([.s r.1] ++ optArg r.2.1 ++ [.s r.2.2.1, .s r.2.2.2, .s We, .s (sintefVi (α := Float) Uc mu_p sigma), .s q])
+      let Vi := sintefVi (α := Float) Uc mu_p sigma
+      some ([.s r.1] ++ optArg r.2.1 ++ [.s r.2.2.1, .s r.2.2.2, .s We, .s Vi, .s q, .s (sintefResidual (α := Float) We Vi dpRoot)])
   | "Psf.sintef_residual", [.s We, .s Vi, .s dp] => some [.s (sintefResidual (α := Float) We Vi dp)]
   | "Psf.li_etal", [.s dmaxGas, .s d0, .v mGas, .s rhoGas, .v mOil, .s rhoOil, .s mu_p, .s sigma, .s rho, .s mu, .n fp] =>
       let r := liEtal (α := Float) dmaxGas d0 mGas rhoGas mOil rhoOil mu_p sigma rho mu fp
